@@ -32,10 +32,17 @@ ClearEarliest(c, off) ==
                THEN <<[e |-> Last(early).e, s |-> off]>> \o rest
                ELSE rest
 
-LastOffsetForEpoch(c, e, newest) ==
+\* commitLog.LastOffsetForLeaderEpoch: the start offset of the first epoch larger
+\* than e, or the newest offset if there is none.  The cache reports "none" as
+\* -1, so a real start offset of -1 (an epoch that began on an empty log) is
+\* indistinguishable from "none" and is answered with the newest offset too.
+EpochStartAfter(c, e) ==
   LET I == {i \in 1..Len(c) : c[i].e >= e + 1}
-  IN IF I = {} THEN newest
-     ELSE c[CHOOSE i \in I : \A j \in I : i <= j].s
+  IN IF I = {} THEN -1 ELSE c[CHOOSE i \in I : \A j \in I : i <= j].s
+LastOffsetForEpoch(c, e, newest) ==
+  IF EpochStartAfter(c, e) = -1 THEN newest ELSE EpochStartAfter(c, e)
+\* TRUE when the -1 ambiguity above is hit
+EpochStartAmbiguous(c, e) == \E i \in 1..Len(c) : c[i].e >= e + 1 /\ EpochStartAfter(c, e) = -1
 
 EpochsWellFormed(c) ==
   \A i \in 1..Len(c) - 1 : c[i].e < c[i + 1].e /\ c[i].s <= c[i + 1].s
